@@ -84,15 +84,17 @@ class InjectedError(IOError):
     """Fault injected by the simulator (a remote I/O error)."""
 
 
-def build_sim_resource(world):
+def build_sim_resource(world, prefix="sim://", chained=False):
     """Returns an instance of a RemoteResource subclass written the way a user would write one."""
     from ocean_science_utilities.filecache.remote_resources import RemoteResource, _RemoteResourceUriNotFound
 
     class SimResource(RemoteResource):
-        URI_PREFIX = "sim://"
+        URI_PREFIX = prefix
 
         def download(self):
             def _download(uri, filepath):
+                if chained:
+                    return world.chain_download(uri, filepath, _RemoteResourceUriNotFound)
                 return world.sim_download(uri, filepath, _RemoteResourceUriNotFound)
 
             return _download
